@@ -524,6 +524,53 @@ def family_shapes():
             "start": "A",
         },
     )
+    # S13 the only production carries a bare bool (minimum depth 1)
+    out.append(
+        {
+            "name": "S13:bool-only",
+            "abstract": [["A", None, "ABC"]],
+            "prods": [["P", "A", None, [["b", "bool"]]], ["Q", "A", None, [["a", ref("A")], ["b", "bool"]]]],
+            "start": "A",
+        },
+    )
+    # S14 union of a deep and a shallow alternative under a concrete start symbol (minimum depth 1)
+    out.append(
+        {
+            "name": "S14:union-min",
+            "abstract": [],
+            "prods": [
+                ["K", None, None, [["k", IR01]]],
+                ["D", None, None, [["d", ref("K")]]],
+                ["U", None, None, [["u", ["union", ref("D"), IR01]]]],
+            ],
+            "start": "U",
+        },
+    )
+    # S15 recursion only through a tuple field
+    out.append(
+        {
+            "name": "S15:tuple-rec",
+            "abstract": [["A", None, "ABC"]],
+            "prods": [
+                ["L", "A", None, [["v", IR01]]],
+                ["T", "A", None, [["t", ["tuple", ref("A"), IR01]]]],
+            ],
+            "start": "A",
+        },
+    )
+    # S16 union of two abstract types of different minimum depth
+    out.append(
+        {
+            "name": "S16:union-abstract",
+            "abstract": [["A", None, "ABC"], ["B", None, "ABC"]],
+            "prods": [
+                ["L", "A", None, [["v", IR01]]],
+                ["M", "B", None, [["a", ref("A")]]],
+                ["U", "A", None, [["u", ["union", ref("B"), ref("L")]], ["w", "bool"]]],
+            ],
+            "start": "A",
+        },
+    )
     return out
 
 
@@ -566,7 +613,7 @@ def finite_family(tier: str):
     fa = finite_alphabet()
     out = list(family_one_abstract(fa, 1 if tier == "quick" else 2, "F1"))
     out += [s for s in family_shapes() if s["name"].split(":")[0] in
-            ("S1", "S2", "S3", "S4", "S5", "S6", "S7", "S8", "S9", "S10", "S12")]
+            ("S1", "S2", "S3", "S4", "S5", "S6", "S7", "S8", "S9", "S10", "S12", "S13", "S14", "S15", "S16")]
     out += list(family_two_abstract(finite_alphabet, "F2"))
     out += list(family_nested(finite_alphabet, "F3"))
     return out
